@@ -37,7 +37,7 @@ type c03N struct {
 }
 
 var (
-	c03Pool    = []string{"a", "b", "c", "d", "l", "m"}
+	c03Pool    = []string{"a", "b", "c", "d", "l", "m", "g"}
 	c03OutLink = []string{"/out", "/out/f", "/out/d", "/out/d/g", "../../out/f", "../../out/d", "../sib", "..", "../..", "/",
 		"/secret", "../../secret", "/out/new", "../new", "/w/sib", "/out/s"}
 	c03InLink = []string{"a", "b", "b/c", ".", "l", "m", "nonexistent", "/w/dest/a", "../dest/a", "a/../b"}
@@ -379,7 +379,8 @@ func c03Mutate(r *Rng, kids []*c03N, depth int) []*c03N {
 	return out
 }
 
-func c03Items(src []*c03N) []c03Item {
+// wanted(path, same): would an honest sender be asked for the content of this regular file
+func c03Items(src []*c03N, wanted func(string, bool) bool) []c03Item {
 	var flat []c03Flat
 	c03Walk(src, "", &flat)
 	present := map[string]*c03N{}
@@ -398,7 +399,7 @@ func c03Items(src []*c03N) []c03Item {
 		it := c03Item{st: c03StatOf(f.path, n)}
 		if n.typ == 0 {
 			it.data = n.data
-			it.want = !n.same
+			it.want = wanted(f.path, n.same)
 		}
 		items = append(items, it)
 	}
@@ -681,16 +682,86 @@ func fsutilCompare(a, b string) int {
 
 var c03DestStrings = []string{"/w/dest", "/w/dest", "/w/dest", "w/dest", "/lnk", "lnk", "/w/dest/", "/out/../w/dest", "/w/./dest"}
 
+const c03ListingName = ".fsutil-metadata" // receive.go metadataPath: the one name the epilogue of a metadata transfer touches
+
+// a callback of ReceiveOpt in the form (default (path ...)), see c03_recv.go
+type c03Pred struct {
+	set   bool
+	def   bool
+	paths map[string]bool
+}
+
+func (p c03Pred) ok(path string) bool { return !p.set || p.def != p.paths[path] }
+func (p c03Pred) sx() Sx {
+	if !p.set {
+		return L()
+	}
+	var ps []string
+	for k := range p.paths {
+		ps = append(ps, k)
+	}
+	sort.Strings(ps)
+	var xs []Sx
+	for _, k := range ps {
+		xs = append(xs, S(k))
+	}
+	return L(Bool(p.def), L(xs...))
+}
+
+// MetadataOnly selector: all (everything transferred in full) / none / some
+func c03GenPred(r *Rng, paths []string) c03Pred {
+	p := c03Pred{set: true, def: r.Chance(50), paths: map[string]bool{}}
+	if r.Chance(35) {
+		return p // all or none
+	}
+	for _, q := range paths {
+		if r.Chance(40) {
+			p.paths[q] = true
+		}
+	}
+	if r.Chance(20) {
+		p.paths[Pick(r, c03BadPaths)] = true
+	}
+	return p
+}
+
 func c03Case(r *Rng) (Sx, string, bool) {
 	budget := 3 + r.Intn(9)
 	dest := c03GenKids(r, 0, &budget, false)
+	merge := r.Chance(25)
+	metaMode := r.Chance(35)
+	if metaMode {
+		merge = r.Chance(50)
+	}
+	if r.Chance(map[bool]int{false: 4, true: 45}[metaMode]) {
+		// the destination already holds something under the listing name
+		b := 4
+		n := c03GenNode(r, c03ListingName, 2, &b, false)
+		dest = append([]*c03N{n}, dest...)
+		sort.Slice(dest, func(i, j int) bool { return dest[i].name < dest[j].name })
+	}
 	c03AddHardlinks(r, &dest)
 	outsideHL := ""
 	if r.Chance(6) {
 		outsideHL = "oh"
 	}
 	src := c03Mutate(r, dest, 0)
-	items := c03Items(src)
+	var srcFlat []c03Flat
+	c03Walk(src, "", &srcFlat)
+	var srcPaths []string
+	for _, f := range srcFlat {
+		srcPaths = append(srcPaths, f.path)
+	}
+	var mo c03Pred
+	if metaMode {
+		mo = c03GenPred(r, srcPaths)
+	}
+	items := c03Items(src, func(p string, same bool) bool {
+		if metaMode && (p == c03ListingName || !mo.ok(p)) {
+			return false
+		}
+		return merge || !same
+	})
 	if outsideHL != "" && r.Chance(70) { // the stream agrees with the second name of /out/f ...
 		st := &types.Stat{Path: outsideHL, Mode: 0644, Size: 3, ModTime: int64(1e18) + 11}
 		items = append(items, c03Item{st: st})
@@ -713,12 +784,15 @@ func c03Case(r *Rng) (Sx, string, bool) {
 		}
 		class = "shared-inode-link"
 	}
-	if class == "valid" && r.Chance(72) {
+	if class == "valid" && r.Chance(map[bool]int{false: 72, true: 55}[metaMode]) {
 		pk, class = c03Corrupt(r, pk, dest)
 		if r.Chance(12) {
 			pk, _ = c03Corrupt(r, pk, dest)
 			class = "two-corruptions"
 		}
+	}
+	if metaMode {
+		class = "meta-" + class
 	}
 	outLinks := 0
 	var flat []c03Flat
@@ -728,7 +802,7 @@ func c03Case(r *Rng) (Sx, string, bool) {
 			outLinks++
 		}
 	}
-	in := L(c03SetupOps(dest, outsideHL), S(Pick(r, c03DestStrings)), L(pk...), Bool(r.Chance(25)))
+	in := L(c03SetupOps(dest, outsideHL), S(Pick(r, c03DestStrings)), L(pk...), Bool(merge), L(mo.sx(), L()))
 	return in, class, outLinks >= 1 && len(pk) >= 3
 }
 
